@@ -17,7 +17,7 @@ RULE = ("ALL words of relative messages up to the length bound over the symbol a
 SCALE = ('words of hundreds of messages from a long piece with injected re-triggers / orphans / restated signatures; one (channel, pitch) struck 1..12 times before any release (released k-1, k, k+1 times); chords of 1..12 notes played, released, struck again and never released; ladder 33..1025 notes under a pedal note, trailing rest of 70001 ticks')
 ASSUMPTIONS = ["fragmentation of rests into wait messages and the velocity a fused note keeps are not demanded"]
 REQUIRED_FLAGS = ["after_history", "aliased_messages_inside_sequence", "retrigger", "orphan_off", "unclosed_on", "nested", "repeated_signature", "balanced_word_roll_compared",
-                  "pitch_equals_channel_number", "trailing_wait"]
+                  "pitch_equals_channel_number", "trailing_wait", "controller_message"]
 
 
 def context(tier, seed):
@@ -27,12 +27,14 @@ def context(tier, seed):
     else:
         pitches, maxlen = [1, third], 6
     syms = [f"{k}:{c}:{p}" for k in ("on", "off") for c in (0, 1) for p in pitches] + ["on0:0:1", "w1", "w2", "w0", "ts34", "ts44", "ksC", "ksG"]
+    if tier == "quick":
+        syms += ["cc123:0", "cc120:1", "cc64:0"]      # controllers, among them "all notes off" / "all sound off"
     ctx = {"syms": syms, "maxlen": maxlen, "tier": tier,
            "bounds": {"alphabet": syms, "max_word_length": maxlen, "words": sum(len(syms) ** k for k in range(maxlen + 1))}}
     if tier != "quick":
         # the quick alphabet (3 pitches incl. pitch == channel number) is also swept completely to length 4
         ctx["syms_b"] = [f"{k}:{c}:{p}" for k in ("on", "off") for c in (0, 1) for p in [0, 1, third]] + \
-                        ["w1", "w2", "w0", "ts34", "ts44", "ksC", "ksG"]
+                        ["w1", "w2", "w0", "ts34", "ts44", "ksC", "ksG", "cc123:0", "cc120:1", "cc64:0"]
     return ctx
 
 
@@ -49,6 +51,9 @@ def units(ctx):
     yield from hist.hist_units()
     yield ("long", "a")
     yield ("deep", "a")
+    for c in (0, 7, 14):
+        for a0 in range(0, 128, 16):
+            yield ("pitchpairs", c, a0)
     yield ("ladder", "a")
     for a in ctx["syms"][-6:] + ctx["syms"][:2]:
         yield ("aliased", a)
@@ -84,6 +89,14 @@ def gen_cases(unit, ctx):
                     word.append(sym)
                 word.append("w17")
                 yield {"word": word}
+        return
+    if unit[0] == "pitchpairs":
+        # EVERY pair of pitches 0..127 sounding together on two neighbouring channels (overlapping and nested)
+        _, c, a0 = unit
+        for a in range(a0, a0 + 16):
+            for b in range(128):
+                yield {"word": [f"on:{c}:{a}", f"on:{c + 1}:{b}", "w1", f"off:{c}:{a}", "w1", f"off:{c + 1}:{b}"]}
+                yield {"word": [f"on:{c + 1}:{b}", f"on:{c}:{a}", "w2", f"off:{c}:{a}", "w1", f"off:{c + 1}:{b}", "w1"]}
         return
     if unit[0] == "deep":
         # scale in depth: one (channel, pitch) struck k times before any release (k = 1 ... 12), released k, k-1 or k+1
@@ -149,6 +162,9 @@ def gen_cases(unit, ctx):
 def mk(sym):
     if sym[0] == "w":
         return Message(message_type=MT.WAIT, time=lib.tk(int(sym[1:])))
+    if sym.startswith("cc"):
+        n, c = sym[2:].split(":")
+        return Message(message_type=MT.CONTROL_CHANGE, channel=int(c), control=int(n), velocity=0)
     if sym.startswith("ts"):
         return Message(message_type=MT.TIME_SIGNATURE, numerator=int(sym[2]), denominator=int(sym[3]))
     if sym.startswith("ks"):
@@ -169,6 +185,8 @@ def analyse(word):
     for sym in word:
         if sym[0] == "w":
             t += int(sym[1:])
+        elif sym.startswith("cc"):
+            facts.add("controller_message")
         elif sym.startswith("ts"):
             if sym == ts:
                 facts.add("repeated_signature")
